@@ -199,6 +199,34 @@ def h_snippet_geometry(case: int) -> bool:
         return _snippet(indent, ctx_indent, pre, w, NCTX, PRIMARY, 1)
 
 
+_TABS = [(lead, mid, ctxtab, prim) for lead in ("", "\t", "\t\t", "  \t", "\t" * 14) for mid in ("", "\t", "a\tb")
+         for ctxtab in (False, True) for prim in (False, True)]
+
+
+def h_snippet_tabs(case: int) -> bool:
+    """
+    pre: 0 <= case < len(_TABS)
+    post: _
+    """
+    # source lines containing TAB characters (in the indentation, between indentation and span, in the context lines):
+    # columns are character offsets, the shown line is still the source line, markers sit under the spanned characters
+    lead, mid, ctxtab, primary = _TABS[realize(case)]
+    with NoTracing():
+        ctx = [("\t" if ctxtab else "    ") + lead + "ctx = 0", lead + "\tother = 1" if ctxtab else lead + "other = 1"]
+        first = lead + mid + "XXX" + "b"
+        lines = ctx + [first, "after = 1"]
+        sm = SourceMap()
+        sm.add_file("f", "\n".join(lines))
+        c0 = len(lead) + len(mid)
+        span = Span(Loc("f", 3, c0), Loc("f", 3, c0 + 3))
+        r = DiagnosticsRenderer(sm)
+        try:
+            r.render_snippet(span, "lab", 3, primary, prefix_lines=2 if primary else 0)
+        except Exception as e:  # noqa: BLE001
+            return _fail(f"render_snippet raised {type(e).__name__}: {e}", r.buffer)
+        return _check_snippet(r.buffer, lines, span, primary, "lab", 0) == len(r.buffer)
+
+
 def h_snippet_label(lab: int, deep: bool, primary: bool, ctx: bool) -> bool:
     """
     pre: 0 <= lab < 5
